@@ -112,6 +112,12 @@ func runFault(sc *scn.Scenario, em func(vt.Ev), mode string, k int64, baseline *
 	sink := &vt.Sink{}
 	series := run.SeriesOf(sc, sc.Data)
 	dist := sc.CfgInt("dist", 0) == 1
+	// "blockq": the k-th callback blocks until its context is cancelled, and the cancellation comes from
+	// Query.Cancel() called by another goroutine (not from the caller's context)
+	blockq := mode == "blockq"
+	if blockq {
+		mode = "block"
+	}
 	honour := mode == "cancel" || mode == "block" || mode == "cancelcall" || mode == "closecall" || mode == "deadline" || strings.HasPrefix(mode, "gate")
 	ctx, cancel := context.WithCancel(context.Background())
 	if mode == "deadline" {
@@ -206,7 +212,14 @@ func runFault(sc *scn.Scenario, em func(vt.Ev), mode string, k int64, baseline *
 	go func() { done <- qry.Exec(ctx) }()
 	switch mode {
 	case "block":
-		go func() { time.Sleep(20 * time.Millisecond); cancel() }()
+		go func() {
+			time.Sleep(20 * time.Millisecond)
+			if blockq {
+				qry.Cancel()
+			} else {
+				cancel()
+			}
+		}()
 	case "cancelcall":
 		// k is the delay in microseconds before Cancel() is called from another goroutine
 		go func() {
